@@ -911,19 +911,26 @@ Definition expected_sx (tr : list visit) (o : outcome) : sx :=
       Lx (map (fun v => Lx [Qx (fst (v_state v)); Lx (map enc_value (snd (v_state v)));
                             Zx (fst (arm_code (v_arm v))); Zx (snd (arm_code (v_arm v)))]) tr)].
 
+(* the observation is a rejection: the expected error, and no state was visited *)
+Definition rejected_obs (ob : fobs) (w : reject) : bool :=
+  andb (err_is (o_res ob) (reject_name w)) (match o_trace ob with [] => true | _ => false end).
+
+Definition kf_id (d : decl) : string :=
+  if kf_undeclared_with_arm d then "undeclared-state-with-arm" else "declared-state-without-arm".
+
 Definition judge_case (c : case) (ob : fobs) : sx :=
   match run_fsm (c_max c) (c_decl c) (c_args c) with
   | RReject w =>
-      if andb (err_is (o_res ob) (reject_name w)) (match o_trace ob with [] => true | _ => false end)
-      then v_ok (reject_tag w)
-      else v_bad "expected-rejection" (Ax (reject_name w))
+      if rejected_obs ob w then v_ok (reject_tag w) else v_bad "expected-rejection" (Ax (reject_name w))
   | RUnmodelled => v_adv "unmodelled-argument"
   | RStartErr => v_adv "start-eval-error"
   | RRun tr o =>
-      if kf_undeclared_with_arm (c_decl c) then
-        (if run_matchb tr o ob then v_kf "undeclared-state-with-arm" else v_bad "kf-mismatch" (expected_sx tr o))
-      else if kf_armless_unreferenced (c_decl c) then
-        (if run_matchb tr o ob then v_kf "declared-state-without-arm" else v_bad "kf-mismatch" (expected_sx tr o))
+      if ill_formed (c_decl c) then
+        (* ill-formed for the property but accepted by the code (a known-finding class): a rejection is
+           what the property demands; the modelled defective run is the known finding; anything else is bad *)
+        (if rejected_obs ob RjState then v_ok "rejected-state"
+         else if run_matchb tr o ob then v_kf (kf_id (c_decl c))
+         else v_bad "kf-mismatch" (expected_sx tr o))
       else
         match o with
         | OErr => v_adv "eval-error"
